@@ -494,10 +494,17 @@ def plan_c13():
 PLANS["C13"] = plan_c13()
 
 PLANS["C16"] = plan_core("C16", "c16", "cache loads as reads in the history + ledger accounting of the retained value",
-                         extra_jobs=lambda tier, seed: [miri_core_job("C16", "c16", tier, 4, 96)],
+                         extra_jobs=lambda tier, seed: [miri_core_job("C16", "c16", tier, 4, 96),
+                                                        # every way of building and reading a cache, incl. the Access trait on a plain Cache (Arc<Payload> values)
+                                                        {"name": "C16.cache.native", "flavour": "native", "args": ["cache", "execs=%d" % T(tier, 400, 20000), "rounds=%d" % T(tier, 10, 200)], "shards": 2, "threads": 4, "timeout": 1200},
+                                                        {"name": "C16.cache.asan", "flavour": "asan", "args": ["cache", "execs=%d" % T(tier, 200, 5000), "rounds=%d" % T(tier, 6, 60)], "shards": 2, "threads": 4, "timeout": 1200},
+                                                        {"name": "C16.cache.miri", "flavour": "miri", "args": ["cache", "nohooks", "execs=6", "rounds=2", "stores=6"], "miri_seeds": T(tier, 6, 64), "timeout": 900}],
                          required=["cache.loads", "cache.loads_mapped", "cache.loads_that_observed_a_change", "cache.cloned", "load.fallback_confirmed"])
 PLANS["C16"]["rule"] = CORE_RULE + (" Profile c16: about 3 of 8 operations are Cache::load on a per-thread cache (plain, mapped or a clone) of a container that other "
-                                     "threads store into (fresh values, the same value again, None); each cache load is recorded as a read of the container with SeqCst stamps.")
+                                     "threads store into (fresh values, the same value again, None); each cache load is recorded as a read of the container with SeqCst stamps. "
+                                     "The `cache` jobs run seeded sequential programs (reference model: a plain variable; six ways of reading: inherent load, the Access trait on a plain "
+                                     "Cache, a generic Access bound, MapCache, clones; caches over &ArcSwap and Arc<ArcSwap>) with count checks (one reference per cache, none on the "
+                                     "replaced value) and free-running rounds in which a writer hands the completion of each store over through an atomic.")
 
 
 def plan_c17():
